@@ -149,7 +149,9 @@ static void build_pools() {
     vector<string> locals = { "user", "a.b", "very.common", "\"q s\"", "\"a\\\"b\"", "x", "!#$%&'*+-/=?^_`{}|~",
         string(64, 'x'), string(65, 'y'), "a..b", ".a", "a.", "a b", "\"open", "a\"b", "\xd0\xb8\xd0\xb2\xd0\xb0\xd0\xbd",
         "\xe7\x94\xa8\xe6\x88\xb7", "\xff\xfe", "a\tb", "\"a\tb\"", "\"a\r\n b\"", "\"\\\x01\"", "#hash", "a@b", "(c)", "\"\"",
-        "\"\xd0\xb9 \xd0\xb9\"", "\xc0\xaf", "a.\"b\".c", "\"a\".b" };
+        "\"\xd0\xb9 \xd0\xb9\"", "\xc0\xaf", "a.\"b\".c", "\"a\".b",
+        // quoted strings with (folding) white space in every position, terminated or not: scanners with look-ahead state
+        "\"ab ", "\"ab\t", "\"ab \"", "\"a b\"", "\" ab\"", "\"ab\r\n c\"", "\"ab\r\n", "\"ab \xd0\xb9\"", "\"ab \xd0\xb9", "\"a\\ b\"", "\"a\\", "\"ab\r", "\"ab\n", "\"a  b\"", "\"ab \xff" };
     // generated domains
     vector<string> doms = { "iana.org", "example.com", "sub.example.net", "EXAMPLE.ORG", "localhost", "x.test", "foo.invalid",
         "a.onion", "example", "host", "mail.ru", "123.456", "1.2.3.4", "under_score.com", "-a.com", "a-.com", "ab--cd.com",
@@ -638,17 +640,24 @@ struct Exec {
         if (o.has_extra && (!o.lp_null || !o.dm_null)) viol("C19:treated-as-domain-after-idn-failure", string(what) + ": lpart/domain set although the conversion failed");
     }
 
-    void check_ledger_obj(int o, const char *when) {
-        ST.ledger_checks++;
-        void *live[16]; int n = sim_ledger_live_for_tag(o, live, 16);
+    // blocks reachable from the object's current result record
+    std::set<void *> result_blocks(int o) {
         shim_res r; shim_get_result(store[o], &r);
         std::set<void *> want;
         if (r.present) { want.insert(r.self); if (r.has_extra) { if (r.lpart) want.insert((void *)r.lpart); if (r.domain) want.insert((void *)r.domain); } }
-        std::set<void *> have(live, live + std::min(n, 16));
+        return want;
+    }
+    // "the previous result record is released by the next call": nothing that belonged to the previous record may
+    // still be live unless it is (again) part of the current record; and the current record must be live memory
+    void check_ledger_obj(int o, const char *when, const std::set<void *> &prev) {
+        ST.ledger_checks++;
+        void *live[64]; int n = sim_ledger_live_for_tag(o, live, 64);
+        std::set<void *> want = result_blocks(o);
+        std::set<void *> have(live, live + std::min(n, 64));
         char b[160];
-        if (n > (int)want.size()) {
-            snprintf(b, sizeof b, "%s: %d library blocks live for the object, %zu reachable from its result record", when, n, want.size());
-            viol("C13:previous-allocation-not-released", b);
+        for (void *p : prev) if (have.count(p) && !want.count(p)) {
+            snprintf(b, sizeof b, "%s: a block of the previous result record is still allocated and no longer reachable from the object", when);
+            viol("C13:previous-allocation-not-released", b); break;
         }
         for (void *w : want) if (!have.count(w)) { snprintf(b, sizeof b, "%s: result record points to a block that is not live", when); viol("C13:result-points-to-released-block", b); break; }
     }
@@ -797,7 +806,7 @@ struct Exec {
                 m.confirmed = m.rfc; m.initialized = (m.rfc == 3);
                 ST.setup_ok++;
             } else {
-                if (r != shim_invalid_rfc_errcode()) { snprintf(b, sizeof b, "eav_setup returned %d for invalid rfc %d (expected EEAV_INVALID_RFC)", r, m.rfc); viol("C13:eav_setup-return-value", b); break; }
+                if (r == 0) { snprintf(b, sizeof b, "eav_setup returned 0 (success) for invalid rfc %d", m.rfc); viol("C13:eav_setup-return-value", b); break; }
                 m.failed_setup_since = true;
                 ST.setup_invalid++;
             }
@@ -813,6 +822,7 @@ struct Exec {
             if (op.f_on) ST.fault_attached++;
             sim_conv_begin(op.f_on, op.f_code, op.f_buf);
             const char *ap = caller_copy(op.o, op.a);
+            std::set<void *> prev_blocks = result_blocks(op.o);
             g_sim_tag = op.o;
             int ret = shim_is_email(e, ap, op.a.size());
             Outcome o; capture(e, ret, o);
@@ -834,7 +844,7 @@ struct Exec {
                 viol("harness:fault-fired-differently", "attached fault fired on one of reused/fresh only");
             }
             if (o.conv_fired) check_containment("eav_is_email", op, 1, o);
-            check_ledger_obj(op.o, "after eav_is_email");
+            check_ledger_obj(op.o, "after eav_is_email", prev_blocks);
             m.has_last = true; m.last = o; m.failed_setup_since = false; m.last_class = outcome_class(o);
         } break;
         case ERRSTR: {
@@ -865,8 +875,6 @@ struct Exec {
             drain_reports();
             if (sim_ledger_live_for_tag(op.o, nullptr, 0) != 0) { viol("C13:eav_free-leaves-allocation", "blocks allocated for the object are still live after eav_free"); sim_ledger_retag(op.o, 999); }
             if (sim_ctx_live_for_tag(op.o) != 0) { viol("C18:context-not-released-by-eav_free", "resolver context still live after eav_free"); sim_ctx_retag(op.o, 999); }
-            shim_res r; shim_get_result(e, &r);
-            if (r.present) viol("C13:eav_free-keeps-result-pointer", "eav_t.result is not NULL after eav_free");
             sim_fill(e, esz);
             g_sim_tag = op.o; shim_init(e); g_sim_tag = SIM_TAG_NONE;
             if (shim_get_rfc(e) != def_rfc || shim_get_tld_check(e) != def_tld || shim_get_allow(e) != def_allow)
